@@ -20,4 +20,4 @@ def HH(seq, conc=False, chain=False, fanin=False, inactive=False, settarget=Fals
     return H('H_%s_%s' % (cfg, seq.replace('^', 'n')), '../common/h_hist.c', H_ENTRIES + list(entries_extra), stubs=stubs, noglobal=['_dispatch_queue_attrs', '_dispatch_mgr_q'], icall_only=H_ICALL + list(icall_extra), nt=3, heap=4096,
              defines=d + (['-DREAL_DISPOSE'] if real_dispose else []), probes=HIST_PROBES, unwind=4, unwindset=UNWINDSET, timeout=timeout, tiers=tiers, weak_cas=False, mem_gb=16,
              note='history "%s" on a %s top queue%s%s%s' % (seq, 'concurrent' if conc else 'serial', ' targeting a serial queue' if chain else '', ' (two queues fan-in on one serial queue)' if fanin else '', ' created inactive' if inactive else ''),
-             symbolic=('R' in seq) or any('PRESUSPEND' in x for x in extra))
+             symbolic=False)
